@@ -56,72 +56,72 @@ import (
 // ---------------------------------------------------------------------------------------------
 // plan
 
-type gIdent struct {
+type zvgGIdent struct {
 	A  int    `json:"a"`
 	F  string `json:"f"` // "lower" | "upper" | "mixed" | "num": how the configuration names the algorithm
 	ID string `json:"id"`
 }
 
-type gDir struct {
+type zvgGDir struct {
 	Lp string `json:"lp"` // '<logname>.pub': "none" | "bad" | "U" | "O"  (recorded: key tag)
 	Lb string `json:"lb"` // bare '<logname>'
 	Rp string `json:"rp"` // '<requser>.pub'
 	Rb string `json:"rb"` // bare '<requser>'
 }
 
-type gFlt struct {
+type zvgGFlt struct {
 	Pt   string `json:"pt"`   // "agent" | "ca" | "h"
 	Idx  int    `json:"idx"`  // agent operation index / CA call index / handler index (1-based)
 	Kind string `json:"kind"` // agent: fail|garbage|close; ca: err|panic; h: auth|name|gen
 }
 
-type gRun struct {
-	Hs      []string `json:"hs"`
-	Ns      string   `json:"ns"`
-	Hard    bool     `json:"hard"`
-	Ln      string   `json:"ln"` // hex; "" or a symbolic model value = generate
-	Ru      string   `json:"ru"`
-	Rh      string   `json:"rh"`
-	IP      string   `json:"ip"`
-	Tid     string   `json:"tid"`
-	Algo    int      `json:"algo"`
-	Val     uint64   `json:"val"`
-	Ids     []gIdent `json:"ids"`
-	Dir     gDir     `json:"dir"`
-	Ans     string   `json:"ans"`
-	Ncert   int      `json:"ncert"`
-	Ncsr    int      `json:"ncsr"`
-	Sgen    string   `json:"sgen"`
-	More    bool     `json:"more"`
-	Fok     bool     `json:"fok"`
-	PlainCA bool     `json:"plainca"`
-	Flts    []gFlt   `json:"flts,omitempty"`
+type zvgGRun struct {
+	Hs      []string    `json:"hs"`
+	Ns      string      `json:"ns"`
+	Hard    bool        `json:"hard"`
+	Ln      string      `json:"ln"` // hex; "" or a symbolic model value = generate
+	Ru      string      `json:"ru"`
+	Rh      string      `json:"rh"`
+	IP      string      `json:"ip"`
+	Tid     string      `json:"tid"`
+	Algo    int         `json:"algo"`
+	Val     uint64      `json:"val"`
+	Ids     []zvgGIdent `json:"ids"`
+	Dir     zvgGDir     `json:"dir"`
+	Ans     string      `json:"ans"`
+	Ncert   int         `json:"ncert"`
+	Ncsr    int         `json:"ncsr"`
+	Sgen    string      `json:"sgen"`
+	More    bool        `json:"more"`
+	Fok     bool        `json:"fok"`
+	PlainCA bool        `json:"plainca"`
+	Flts    []zvgGFlt   `json:"flts,omitempty"`
 }
 
-type gCase struct {
-	ID    string   `json:"id"`
-	Pre   []string `json:"pre"`
-	UKind string   `json:"ukind"`
-	Reuse bool     `json:"reuse"` // one process: the same regular.Handler object and the same forwarded connection serve all runs
-	Runs  []gRun   `json:"runs"`
+type zvgGCase struct {
+	ID    string    `json:"id"`
+	Pre   []string  `json:"pre"`
+	UKind string    `json:"ukind"`
+	Reuse bool      `json:"reuse"` // one process: the same regular.Handler object and the same forwarded connection serve all runs
+	Runs  []zvgGRun `json:"runs"`
 }
 
-type gRandom struct {
+type zvgGRandom struct {
 	N       int `json:"n"`
 	MaxRuns int `json:"maxruns"`
 }
 
-type gPlan struct {
-	Cases   []gCase  `json:"cases"`
-	Random  *gRandom `json:"random"`
-	Workers int      `json:"workers"`
-	Only    []string `json:"only"` // when set: run only the cases with these ids
+type zvgGPlan struct {
+	Cases   []zvgGCase  `json:"cases"`
+	Random  *zvgGRandom `json:"random"`
+	Workers int         `json:"workers"`
+	Only    []string    `json:"only"` // when set: run only the cases with these ids
 }
 
 // ---------------------------------------------------------------------------------------------
 // records (shape of Gensign!r)
 
-type gID struct {
+type zvgGID struct {
 	Tag string `json:"tag"`
 	T   string `json:"t"`
 	K   string `json:"k"`
@@ -130,33 +130,33 @@ type gID struct {
 	Cls string `json:"cls"`
 }
 
-type gAuth struct {
+type zvgGAuth struct {
 	Called bool `json:"called"`
 	Ok     bool `json:"ok"`
 	Pan    bool `json:"pan"`
 }
 
-type gSig struct {
+type zvgGSig struct {
 	Key  string `json:"key"`
 	Data string `json:"data"`
 }
 
-type gChal struct {
-	H    int    `json:"h"`
-	Key  string `json:"key"`
-	Data []int  `json:"data"`
-	Hx   string `json:"hx"`
-	Sig  gSig   `json:"sig"`
-	F    string `json:"f"`
+type zvgGChal struct {
+	H    int     `json:"h"`
+	Key  string  `json:"key"`
+	Data []int   `json:"data"`
+	Hx   string  `json:"hx"`
+	Sig  zvgGSig `json:"sig"`
+	F    string  `json:"f"`
 }
 
-type gGen struct {
+type zvgGGen struct {
 	H   int    `json:"h"`
 	Res string `json:"res"`
 	N   int    `json:"n"`
 }
 
-type gKid struct {
+type zvgGKid struct {
 	Ok    bool     `json:"ok"`
 	Prins []string `json:"prins"`
 	Tid   string   `json:"tid"`
@@ -172,7 +172,7 @@ type gKid struct {
 	Touch int      `json:"touch"`
 }
 
-type gCsr struct {
+type zvgGCsr struct {
 	H         int      `json:"h"`
 	Prins     []string `json:"prins"`
 	Val       uint64   `json:"val"`
@@ -180,18 +180,18 @@ type gCsr struct {
 	ExtsEmpty bool     `json:"extsempty"`
 	Ident     string   `json:"ident"`
 	Key       string   `json:"key"`
-	Kid       gKid     `json:"kid"`
+	Kid       zvgGKid  `json:"kid"`
 	Res       string   `json:"res"`
 	N         int      `json:"n"`
 }
 
-type gCert struct {
+type zvgGCert struct {
 	Tag  string `json:"tag"`
 	Key  string `json:"key"`
 	Call int    `json:"call"`
 }
 
-type gFrame struct {
+type zvgGFrame struct {
 	K    string `json:"k"`
 	F    string `json:"f"`
 	ID   string `json:"id"`
@@ -200,54 +200,54 @@ type gFrame struct {
 	Ok   bool   `json:"ok"`
 }
 
-type gHP struct {
+type zvgGHP struct {
 	H int    `json:"h"`
 	M string `json:"m"`
 }
 
-type gObs struct {
-	Auth  []gAuth  `json:"auth"`
-	Chal  []gChal  `json:"chal"`
-	Gen   []gGen   `json:"gen"`
-	Csr   []gCsr   `json:"csr"`
-	Certs []gCert  `json:"certs"`
-	Fr    []gFrame `json:"fr"`
-	Hp    []gHP    `json:"hp"`
-	Err   string   `json:"err"`
-	Pan   bool     `json:"pan"`
+type zvgGObs struct {
+	Auth  []zvgGAuth  `json:"auth"`
+	Chal  []zvgGChal  `json:"chal"`
+	Gen   []zvgGGen   `json:"gen"`
+	Csr   []zvgGCsr   `json:"csr"`
+	Certs []zvgGCert  `json:"certs"`
+	Fr    []zvgGFrame `json:"fr"`
+	Hp    []zvgGHP    `json:"hp"`
+	Err   string      `json:"err"`
+	Pan   bool        `json:"pan"`
 }
 
-type gAg struct {
-	Ag []gID `json:"ag"`
+type zvgGAg struct {
+	Ag []zvgGID `json:"ag"`
 }
 
-type gEv struct {
-	Op string `json:"op"`
-	Sc *gRun  `json:"sc,omitempty"`
-	R  *gObs  `json:"r,omitempty"`
+type zvgGEv struct {
+	Op string   `json:"op"`
+	Sc *zvgGRun `json:"sc,omitempty"`
+	R  *zvgGObs `json:"r,omitempty"`
 }
 
-type gRec struct {
+type zvgGRec struct {
 	Ev   string      `json:"ev"`
 	Tid  string      `json:"tid"`
 	I    int         `json:"i"`
-	Pre  *gAg        `json:"pre,omitempty"`
-	E    *gEv        `json:"e,omitempty"`
-	Post *gAg        `json:"post,omitempty"`
+	Pre  *zvgGAg     `json:"pre,omitempty"`
+	E    *zvgGEv     `json:"e,omitempty"`
+	Post *zvgGAg     `json:"post,omitempty"`
 	Info interface{} `json:"info,omitempty"`
 }
 
-func tagOf(blob []byte) string {
+func zvgTagOf(blob []byte) string {
 	h := sha256.Sum256(blob)
 	return hex.EncodeToString(h[:8])
 }
 
-func hx(s string) string { return hex.EncodeToString([]byte(s)) }
+func zvgHx(s string) string { return hex.EncodeToString([]byte(s)) }
 
 // ---------------------------------------------------------------------------------------------
 // the forwarded agent: keyring behind a recording backend and a frame proxy
 
-type backCall struct {
+type zvgBackCall struct {
 	op      string
 	id      string
 	cert    bool
@@ -255,15 +255,15 @@ type backCall struct {
 	comment string
 }
 
-// recBackend records the parsed form of the request the agent server decoded (add-identity constraints).
-type recBackend struct {
+// zvgRecBackend records the parsed form of the request the agent server decoded (add-identity constraints).
+type zvgRecBackend struct {
 	agent.Agent
 	mu   sync.Mutex
-	last *backCall
+	last *zvgBackCall
 }
 
-func (b *recBackend) set(c *backCall) { b.mu.Lock(); b.last = c; b.mu.Unlock() }
-func (b *recBackend) take() *backCall {
+func (b *zvgRecBackend) set(c *zvgBackCall) { b.mu.Lock(); b.last = c; b.mu.Unlock() }
+func (b *zvgRecBackend) take() *zvgBackCall {
 	b.mu.Lock()
 	defer b.mu.Unlock()
 	c := b.last
@@ -271,79 +271,79 @@ func (b *recBackend) take() *backCall {
 	return c
 }
 
-func (b *recBackend) Add(k agent.AddedKey) error {
-	c := &backCall{op: "add", life: k.LifetimeSecs, comment: k.Comment}
+func (b *zvgRecBackend) Add(k agent.AddedKey) error {
+	c := &zvgBackCall{op: "add", life: k.LifetimeSecs, comment: k.Comment}
 	if k.Certificate != nil {
 		c.cert = true
-		c.id = tagOf(k.Certificate.Marshal())
+		c.id = zvgTagOf(k.Certificate.Marshal())
 	} else if s, err := ssh.NewSignerFromKey(k.PrivateKey); err == nil {
-		c.id = tagOf(s.PublicKey().Marshal())
+		c.id = zvgTagOf(s.PublicKey().Marshal())
 	}
 	b.set(c)
 	return b.Agent.Add(k)
 }
 
-func (b *recBackend) Remove(k ssh.PublicKey) error {
-	b.set(&backCall{op: "remove", id: tagOf(k.Marshal())})
+func (b *zvgRecBackend) Remove(k ssh.PublicKey) error {
+	b.set(&zvgBackCall{op: "remove", id: zvgTagOf(k.Marshal())})
 	return b.Agent.Remove(k)
 }
 
-type signReq struct {
+type zvgSignReq struct {
 	KeyBlob []byte `sshtype:"13"`
 	Data    []byte
 	Flags   uint32
 }
 
-type signResp struct {
+type zvgSignResp struct {
 	Sig []byte `sshtype:"14"`
 }
 
-type gsAction struct {
+type zvgGsAction struct {
 	kind  string // "pass" | "reply" | "close"
 	reply []byte
 	fault string // fault kind recorded for the frame ("none" for scripted agent behaviour)
 	other []byte // data actually signed by an "other data" answer
 }
 
-type gsProxy struct {
+type zvgGsProxy struct {
 	client  net.Conn
 	srv     net.Conn
 	b1      net.Conn
 	s1      net.Conn
-	back    *recBackend
-	scratch *recBackend
-	script  func(idx int, kind string, req []byte) gsAction
-	onFrame func(idx int, kind string, req, reply []byte, act gsAction, fr *gFrame)
+	back    *zvgRecBackend
+	scratch *zvgRecBackend
+	script  func(idx int, kind string, req []byte) zvgGsAction
+	onFrame func(idx int, kind string, req, reply []byte, act zvgGsAction, fr *zvgGFrame)
 
 	mu     sync.Mutex
 	idx    int
-	frames []gFrame
+	frames []zvgGFrame
 	done   chan struct{}
 }
 
-func newGsProxy(kr agent.Agent) *gsProxy {
+func zvgNewGsProxy(kr agent.Agent) *zvgGsProxy {
 	c1, c2 := net.Pipe()
 	b1, b2 := net.Pipe()
 	s1, s2 := net.Pipe()
-	p := &gsProxy{client: c1, srv: c2, b1: b1, s1: s1, done: make(chan struct{})}
-	p.back = &recBackend{Agent: kr}
-	p.scratch = &recBackend{Agent: agent.NewKeyring()}
+	p := &zvgGsProxy{client: c1, srv: c2, b1: b1, s1: s1, done: make(chan struct{})}
+	p.back = &zvgRecBackend{Agent: kr}
+	p.scratch = &zvgRecBackend{Agent: agent.NewKeyring()}
 	go func() { _ = agent.ServeAgent(p.back, b2); b2.Close() }()
 	go func() { _ = agent.ServeAgent(p.scratch, s2); s2.Close() }()
 	return p
 }
 
-func (p *gsProxy) start() { go p.loop() }
+func (p *zvgGsProxy) start() { go p.loop() }
 
 // begin installs the script of the next run; agent operation indices and the frame log restart.
-func (p *gsProxy) begin(script func(idx int, kind string, req []byte) gsAction,
-	onFrame func(idx int, kind string, req, reply []byte, act gsAction, fr *gFrame)) {
+func (p *zvgGsProxy) begin(script func(idx int, kind string, req []byte) zvgGsAction,
+	onFrame func(idx int, kind string, req, reply []byte, act zvgGsAction, fr *zvgGFrame)) {
 	p.mu.Lock()
 	p.script, p.onFrame, p.idx, p.frames = script, onFrame, 0, nil
 	p.mu.Unlock()
 }
 
-func (p *gsProxy) alive() bool {
+func (p *zvgGsProxy) alive() bool {
 	select {
 	case <-p.done:
 		return false
@@ -352,14 +352,14 @@ func (p *gsProxy) alive() bool {
 	}
 }
 
-func (p *gsProxy) roundTrip(c net.Conn, req []byte) ([]byte, error) {
+func (p *zvgGsProxy) roundTrip(c net.Conn, req []byte) ([]byte, error) {
 	if err := verifh.WriteFrame(c, req); err != nil {
 		return nil, err
 	}
 	return verifh.ReadFrame(c)
 }
 
-func (p *gsProxy) loop() {
+func (p *zvgGsProxy) loop() {
 	defer close(p.done)
 	defer p.srv.Close()
 	for {
@@ -376,7 +376,7 @@ func (p *gsProxy) loop() {
 			kind = verifh.ReqKind(req[0])
 		}
 		act := script(idx, kind, req)
-		fr := gFrame{K: kind, F: act.fault}
+		fr := zvgGFrame{K: kind, F: act.fault}
 		var reply []byte
 		switch act.kind {
 		case "pass":
@@ -385,23 +385,23 @@ func (p *gsProxy) loop() {
 				return
 			}
 			if c := p.back.take(); c != nil {
-				fr.ID, fr.Cert, fr.Life = c.id, c.cert, capLife(c.life)
+				fr.ID, fr.Cert, fr.Life = c.id, c.cert, zvgCapLife(c.life)
 			}
 		default:
 			// the request is not executed by the agent; a scratch agent decodes it for the record
 			if kind == "add" || kind == "remove" {
 				if _, err := p.roundTrip(p.s1, req); err == nil {
 					if c := p.scratch.take(); c != nil {
-						fr.ID, fr.Cert, fr.Life = c.id, c.cert, capLife(c.life)
+						fr.ID, fr.Cert, fr.Life = c.id, c.cert, zvgCapLife(c.life)
 					}
 				}
 			}
 			reply = act.reply
 		}
 		if kind == "sign" {
-			var sr signReq
+			var sr zvgSignReq
 			if ssh.Unmarshal(req, &sr) == nil {
-				fr.ID = tagOf(sr.KeyBlob)
+				fr.ID = zvgTagOf(sr.KeyBlob)
 			}
 		}
 		fr.Ok = act.fault == "none" && act.kind != "close" && len(reply) > 0 && (reply[0] == 6 || reply[0] == 12 || reply[0] == 14)
@@ -420,14 +420,14 @@ func (p *gsProxy) loop() {
 	}
 }
 
-func capLife(l uint32) int64 {
+func zvgCapLife(l uint32) int64 {
 	if l > 2147483647 {
 		return 2147483647
 	}
 	return int64(l)
 }
 
-func (p *gsProxy) close() {
+func (p *zvgGsProxy) close() {
 	p.client.Close()
 	p.srv.Close()
 	p.b1.Close()
@@ -438,7 +438,7 @@ func (p *gsProxy) close() {
 	}
 }
 
-func garbageReply(r *mrand.Rand) []byte {
+func zvgGarbageReply(r *mrand.Rand) []byte {
 	switch r.Intn(4) {
 	case 0:
 		return []byte{}
@@ -457,16 +457,16 @@ func garbageReply(r *mrand.Rand) []byte {
 // ---------------------------------------------------------------------------------------------
 // stub handler, recording wrapper, stub CA
 
-const stubName = "verif.stub"
+const zvgStubName = "verif.stub"
 
-type stubAgentKey struct {
+type zvgStubAgentKey struct {
 	*agssh.AgentKey
 	csrs []*proto.SSHCertificateSigningRequest
 }
 
-func (s *stubAgentKey) CSRs() []*proto.SSHCertificateSigningRequest { return s.csrs }
+func (s *zvgStubAgentKey) CSRs() []*proto.SSHCertificateSigningRequest { return s.csrs }
 
-type stubHandler struct {
+type zvgStubHandler struct {
 	accept bool
 	sgen   string
 	ncsr   int
@@ -474,36 +474,36 @@ type stubHandler struct {
 	ag     agent.Agent
 }
 
-func (s *stubHandler) Name() string { return stubName }
+func (s *zvgStubHandler) Name() string { return zvgStubName }
 
-func (s *stubHandler) Authenticate(p *csr.ReqParam) error {
+func (s *zvgStubHandler) Authenticate(p *csr.ReqParam) error {
 	if s.accept {
 		return nil
 	}
-	return gensign.NewErrorWithMsg(gensign.HandlerAuthN, stubName, "stub rejects")
+	return gensign.NewErrorWithMsg(gensign.HandlerAuthN, zvgStubName, "stub rejects")
 }
 
-func (s *stubHandler) Generate(p *csr.ReqParam) ([]csr.AgentKey, error) {
+func (s *zvgStubHandler) Generate(p *csr.ReqParam) ([]csr.AgentKey, error) {
 	switch s.sgen {
 	case "CSR":
-		return nil, gensign.NewErrorWithMsg(gensign.HandlerGenCSRErr, stubName, "stub csr error")
+		return nil, gensign.NewErrorWithMsg(gensign.HandlerGenCSRErr, zvgStubName, "stub csr error")
 	case "Conf":
-		return nil, gensign.NewErrorWithMsg(gensign.HandlerConfErr, stubName, "stub conf error")
+		return nil, gensign.NewErrorWithMsg(gensign.HandlerConfErr, zvgStubName, "stub conf error")
 	case "Params":
-		return nil, gensign.NewErrorWithMsg(gensign.InvalidParams, stubName, "stub params error")
+		return nil, gensign.NewErrorWithMsg(gensign.InvalidParams, zvgStubName, "stub params error")
 	case "empty":
 		return nil, nil
 	}
 	opt := agssh.DefaultKeyOpt
-	opt.KeyRefreshFilter = func(k *agent.Key) bool { return strings.Contains(k.Comment, stubName) }
+	opt.KeyRefreshFilter = func(k *agent.Key) bool { return strings.Contains(k.Comment, zvgStubName) }
 	opt.PrivateKeyValiditySec = uint32(s.val) + 3600
-	opt.CertLabel = stubName + "-cert"
+	opt.CertLabel = zvgStubName + "-cert"
 	opt.PublicKeyAlgo = key.ECDSAsecp256r1
 	ak, err := agssh.NewSSHAgentKeyWithOpt(s.ag, opt)
 	if err != nil {
-		return nil, gensign.NewError(gensign.HandlerGenCSRErr, stubName, err)
+		return nil, gensign.NewError(gensign.HandlerGenCSRErr, zvgStubName, err)
 	}
-	sk := &stubAgentKey{AgentKey: ak}
+	sk := &zvgStubAgentKey{AgentKey: ak}
 	for i := 0; i < s.ncsr; i++ {
 		kid := &keyid.KeyID{Principals: []string{p.LogName}, TransID: p.TransID, ReqUser: p.ReqUser, ReqIP: p.ClientIP, ReqHost: p.ReqHost,
 			Version: keyid.DefaultVersion, Usage: keyid.AllUsage, TouchPolicy: keyid.NeverTouch}
@@ -520,36 +520,36 @@ func (s *stubHandler) Generate(p *csr.ReqParam) ([]csr.AgentKey, error) {
 	return []csr.AgentKey{sk}, nil
 }
 
-type runCtx struct {
+type zvgRunCtx struct {
 	mu      sync.Mutex
-	obs     *gObs
+	obs     *zvgGObs
 	curAuth int
 	owner   map[*proto.SSHCertificateSigningRequest]int
 }
 
-type recH struct {
+type zvgRecH struct {
 	inner   gensign.Handler
 	idx     int
-	rc      *runCtx
+	rc      *zvgRunCtx
 	panicAt map[string]bool
 }
 
-func (h *recH) Name() string {
+func (h *zvgRecH) Name() string {
 	if h.panicAt["name"] {
 		h.rc.mu.Lock()
-		h.rc.obs.Hp = append(h.rc.obs.Hp, gHP{H: h.idx, M: "name"})
+		h.rc.obs.Hp = append(h.rc.obs.Hp, zvgGHP{H: h.idx, M: "name"})
 		h.rc.mu.Unlock()
 		panic("verif: injected panic in Handler.Name")
 	}
 	return h.inner.Name()
 }
 
-func (h *recH) Authenticate(p *csr.ReqParam) error {
+func (h *zvgRecH) Authenticate(p *csr.ReqParam) error {
 	h.rc.mu.Lock()
 	h.rc.obs.Auth[h.idx-1].Called = true
 	if h.panicAt["auth"] {
 		h.rc.obs.Auth[h.idx-1].Pan = true
-		h.rc.obs.Hp = append(h.rc.obs.Hp, gHP{H: h.idx, M: "auth"})
+		h.rc.obs.Hp = append(h.rc.obs.Hp, zvgGHP{H: h.idx, M: "auth"})
 		h.rc.mu.Unlock()
 		panic("verif: injected panic in Handler.Authenticate")
 	}
@@ -563,7 +563,7 @@ func (h *recH) Authenticate(p *csr.ReqParam) error {
 	return err
 }
 
-func errKind(err error) string {
+func zvgErrKind(err error) string {
 	if err == nil {
 		return "nil"
 	}
@@ -580,19 +580,19 @@ func errKind(err error) string {
 	return "Other"
 }
 
-func (h *recH) Generate(p *csr.ReqParam) ([]csr.AgentKey, error) {
+func (h *zvgRecH) Generate(p *csr.ReqParam) ([]csr.AgentKey, error) {
 	if h.panicAt["gen"] {
 		h.rc.mu.Lock()
-		h.rc.obs.Hp = append(h.rc.obs.Hp, gHP{H: h.idx, M: "gen"})
-		h.rc.obs.Gen = append(h.rc.obs.Gen, gGen{H: h.idx, Res: "panic"})
+		h.rc.obs.Hp = append(h.rc.obs.Hp, zvgGHP{H: h.idx, M: "gen"})
+		h.rc.obs.Gen = append(h.rc.obs.Gen, zvgGGen{H: h.idx, Res: "panic"})
 		h.rc.mu.Unlock()
 		panic("verif: injected panic in Handler.Generate")
 	}
 	keys, err := h.inner.Generate(p)
-	g := gGen{H: h.idx}
+	g := zvgGGen{H: h.idx}
 	h.rc.mu.Lock()
 	if err != nil {
-		g.Res = errKind(err)
+		g.Res = zvgErrKind(err)
 	} else {
 		for _, k := range keys {
 			for _, c := range k.CSRs() {
@@ -611,9 +611,9 @@ func (h *recH) Generate(p *csr.ReqParam) ([]csr.AgentKey, error) {
 	return keys, err
 }
 
-type stubCA struct {
+type zvgStubCA struct {
 	ca      ssh.Signer
-	rc      *runCtx
+	rc      *zvgRunCtx
 	ncert   int
 	plain   bool
 	flts    map[int]string
@@ -622,15 +622,15 @@ type stubCA struct {
 	plainPK ssh.PublicKey
 }
 
-func (c *stubCA) Sign(ctx context.Context, req *proto.SSHCertificateSigningRequest) ([]ssh.PublicKey, []string, error) {
+func (c *zvgStubCA) Sign(ctx context.Context, req *proto.SSHCertificateSigningRequest) ([]ssh.PublicKey, []string, error) {
 	c.calls++
 	idx := c.calls
-	rec := gCsr{Prins: []string{}, Exts: []string{}, ExtsEmpty: true, Kid: gKid{Prins: []string{}}}
+	rec := zvgGCsr{Prins: []string{}, Exts: []string{}, ExtsEmpty: true, Kid: zvgGKid{Prins: []string{}}}
 	c.rc.mu.Lock()
 	rec.H = c.rc.owner[req]
 	c.rc.mu.Unlock()
 	for _, p := range req.Principals {
-		rec.Prins = append(rec.Prins, hx(p))
+		rec.Prins = append(rec.Prins, zvgHx(p))
 	}
 	rec.Val = req.Validity
 	for k, v := range req.Extensions {
@@ -645,16 +645,16 @@ func (c *stubCA) Sign(ctx context.Context, req *proto.SSHCertificateSigningReque
 	}
 	pub, _, _, _, perr := ssh.ParseAuthorizedKey([]byte(req.PublicKey))
 	if perr == nil {
-		rec.Key = tagOf(pub.Marshal())
+		rec.Key = zvgTagOf(pub.Marshal())
 	} else {
 		rec.Key = "unparsable"
 	}
 	if kid, err := keyid.Unmarshal(req.KeyId); err == nil {
-		rec.Kid = gKid{Ok: true, Prins: []string{}, Tid: hx(kid.TransID), Ru: hx(kid.ReqUser), IP: hx(kid.ReqIP), Rh: hx(kid.ReqHost),
+		rec.Kid = zvgGKid{Ok: true, Prins: []string{}, Tid: zvgHx(kid.TransID), Ru: zvgHx(kid.ReqUser), IP: zvgHx(kid.ReqIP), Rh: zvgHx(kid.ReqHost),
 			Ver: int(kid.Version), Ff: kid.IsFirefighter, Hw: kid.IsHWKey, Hl: kid.IsHeadless, Nonce: kid.IsNonce,
 			Usage: int(kid.Usage), Touch: int(kid.TouchPolicy)}
 		for _, p := range kid.Principals {
-			rec.Kid.Prins = append(rec.Kid.Prins, hx(p))
+			rec.Kid.Prins = append(rec.Kid.Prins, zvgHx(p))
 		}
 	}
 	push := func() {
@@ -680,7 +680,7 @@ func (c *stubCA) Sign(ctx context.Context, req *proto.SSHCertificateSigningReque
 	var certs []ssh.PublicKey
 	var comments []string
 	now := uint64(time.Now().Unix())
-	var recs []gCert
+	var recs []zvgGCert
 	for j := 0; j < c.ncert; j++ {
 		*c.serial++
 		ct := verifh.Mint(c.ca, verifh.CertSpec{Key: pub, KeyID: req.KeyId, ValidAfter: now - 60, ValidBefore: now + req.Validity,
@@ -691,7 +691,7 @@ func (c *stubCA) Sign(ctx context.Context, req *proto.SSHCertificateSigningReque
 		} else {
 			comments = append(comments, "")
 		}
-		recs = append(recs, gCert{Tag: tagOf(ct.Marshal()), Key: rec.Key, Call: idx})
+		recs = append(recs, zvgGCert{Tag: zvgTagOf(ct.Marshal()), Key: rec.Key, Call: idx})
 		if c.plain && j == 0 {
 			// a non-certificate public key among the answers is skipped by the RA
 			certs = append(certs, c.plainPK)
@@ -709,8 +709,8 @@ func (c *stubCA) Sign(ctx context.Context, req *proto.SSHCertificateSigningReque
 // ---------------------------------------------------------------------------------------------
 // one case = one agent, several runs
 
-type gInst struct {
-	c      *gCase
+type zvgGInst struct {
+	c      *zvgGCase
 	rnd    *mrand.Rand
 	kr     agent.Agent
 	ukind  string
@@ -724,20 +724,20 @@ type gInst struct {
 	oldDat [][]byte          // data of earlier sign requests
 	known  []ssh.PublicKey
 
-	// reuse mode (gCase.Reuse)
-	px     *gsProxy
+	// reuse mode (zvgGCase.Reuse)
+	px     *zvgGsProxy
 	regH   gensign.Handler
 	fixVal uint64
-	fixIds []gIdent
+	fixIds []zvgGIdent
 	fixed  bool
 }
 
-var nearMiss = map[string][]string{
+var zvgNearMiss = map[string][]string{
 	"nearcase":  {"PARANOIDS.REGULAR-cert", "Paranoids.Regular-cert", "paranoids.REGULAR-cert"},
 	"neartrunc": {"paranoids.regula-cert", "aranoids.regular-cert", "paranoids.regula", "paranoids.regul ar-cert", "paranoids_regular-cert", "paranoids-regular-cert"},
 }
 
-func kindOfKey(pk ssh.PublicKey) string {
+func zvgKindOfKey(pk ssh.PublicKey) string {
 	switch pk.Type() {
 	case ssh.KeyAlgoED25519:
 		return "ed25519"
@@ -751,16 +751,16 @@ func kindOfKey(pk ssh.PublicKey) string {
 	return "rsa2048"
 }
 
-func (g *gInst) plant(cls string, n int) error {
+func (g *zvgGInst) plant(cls string, n int) error {
 	add := func(kp *verifh.KeyPair, cert *ssh.Certificate, comment string) error {
 		ak := agent.AddedKey{PrivateKey: kp.Priv, Certificate: cert, Comment: comment}
 		if err := g.kr.Add(ak); err != nil {
 			return err
 		}
 		if cert != nil {
-			g.cls[tagOf(cert.Marshal())] = cls
+			g.cls[zvgTagOf(cert.Marshal())] = cls
 		} else {
-			g.cls[tagOf(kp.Pub.Marshal())] = cls
+			g.cls[zvgTagOf(kp.Pub.Marshal())] = cls
 		}
 		return nil
 	}
@@ -781,33 +781,33 @@ func (g *gInst) plant(cls string, n int) error {
 		return add(kp, mint(kp, "corp-ca user cert"), []string{"corp-cert", "", "regular", "paranoids", "cert"}[g.rnd.Intn(5)])
 	case "nearcase", "neartrunc":
 		kp := verifh.PoolKey(40+n, kinds[g.rnd.Intn(3)])
-		cs := nearMiss[cls]
+		cs := zvgNearMiss[cls]
 		return add(kp, mint(kp, verifh.KeyIDText("yss-regular", "old", g.rnd)), cs[g.rnd.Intn(len(cs))])
 	case "oldgenR":
 		kp := verifh.PoolKey(50, "ecdsa384")
 		return add(kp, mint(kp, verifh.KeyIDText("yss-regular", "old"+strconv.Itoa(n), g.rnd)), HandlerName+"-cert")
 	case "oldgenS":
 		kp := verifh.PoolKey(51, "ecdsa256")
-		return add(kp, mint(kp, verifh.KeyIDText("yss-regular", "olds"+strconv.Itoa(n), g.rnd)), stubName+"-cert")
+		return add(kp, mint(kp, verifh.KeyIDText("yss-regular", "olds"+strconv.Itoa(n), g.rnd)), zvgStubName+"-cert")
 	}
 	return fmt.Errorf("unknown planted class %q", cls)
 }
 
-func (g *gInst) observe() ([]gID, error) {
+func (g *zvgGInst) observe() ([]zvgGID, error) {
 	keys, err := g.kr.List()
 	if err != nil {
 		return nil, err
 	}
-	out := make([]gID, 0, len(keys))
+	out := make([]zvgGID, 0, len(keys))
 	for _, k := range keys {
-		id := gID{Tag: tagOf(k.Blob), T: "key", Lb: "-", Cls: "ra"}
+		id := zvgGID{Tag: zvgTagOf(k.Blob), T: "key", Lb: "-", Cls: "ra"}
 		id.K = id.Tag
 		if c, ok := g.cls[id.Tag]; ok {
 			id.Cls = c
 		}
 		if strings.Contains(k.Comment, HandlerName) {
 			id.Lb = "R"
-		} else if strings.Contains(k.Comment, stubName) {
+		} else if strings.Contains(k.Comment, zvgStubName) {
 			id.Lb = "S"
 		}
 		pk, err := ssh.ParsePublicKey(k.Blob)
@@ -818,7 +818,7 @@ func (g *gInst) observe() ([]gID, error) {
 		ver := pk
 		if cert, ok := pk.(*ssh.Certificate); ok {
 			id.T = "cert"
-			id.K = tagOf(cert.Key.Marshal())
+			id.K = zvgTagOf(cert.Key.Marshal())
 			ver = cert.Key
 		}
 		data := make([]byte, 32)
@@ -832,18 +832,18 @@ func (g *gInst) observe() ([]gID, error) {
 	return out, nil
 }
 
-var textAlphabets = []string{
+var zvgTextAlphabets = []string{
 	"abcdefghijklmnopqrstuvwxyz0123456789", "ABCDEFGHIJKLMNOPQRSTUVWXYZ-_.", "\"\\{}[]:,'`", "<>&;|$*?!#%=+~^()@",
 	" \t\n\r\u0001\u007f", "üéñßøåçÆ", "中文日本語한국어", "אבגד مرحبا", "😀🔑\U0001F600", "\u00a0\u2003\u200d\ufeff\u2028",
 }
 
-func genText(r *mrand.Rand, fileName bool) string {
+func zvgGenText(r *mrand.Rand, fileName bool) string {
 	n := 1 + r.Intn(20)
 	var sb strings.Builder
 	nal := 1 + r.Intn(4)
 	als := make([][]rune, nal)
 	for i := range als {
-		als[i] = []rune(textAlphabets[r.Intn(len(textAlphabets))])
+		als[i] = []rune(zvgTextAlphabets[r.Intn(len(zvgTextAlphabets))])
 	}
 	for i := 0; i < n; i++ {
 		a := als[r.Intn(nal)]
@@ -858,14 +858,34 @@ func genText(r *mrand.Rand, fileName bool) string {
 	return s
 }
 
-func genIP(r *mrand.Rand) string {
+// zvgGenLogName: in two cases of three a name that a strict parameter validator accepts (non-empty, no '/', no backslash, no
+// white space, no control characters, short) - still with JSON / shell metacharacters and non-ASCII letters; otherwise any text.
+func zvgGenLogName(r *mrand.Rand) string {
+	if r.Intn(3) == 0 {
+		return zvgGenText(r, true)
+	}
+	for {
+		var sb strings.Builder
+		for _, c := range zvgGenText(r, true) {
+			if c == '/' || c == '\\' || c == 0 || unicode.IsSpace(c) || unicode.IsControl(c) {
+				continue
+			}
+			sb.WriteRune(c)
+		}
+		if s := sb.String(); s != "" && s != "." && s != ".." {
+			return s
+		}
+	}
+}
+
+func zvgGenIP(r *mrand.Rand) string {
 	if r.Intn(3) == 0 {
 		return fmt.Sprintf("2001:db8:%x::%x", r.Intn(65536), 1+r.Intn(65535))
 	}
 	return fmt.Sprintf("%d.%d.%d.%d", 1+r.Intn(223), r.Intn(256), r.Intn(256), 1+r.Intn(254))
 }
 
-func unhex(s string) (string, bool) {
+func zvgUnhex(s string) (string, bool) {
 	if s == "" || len(s)%2 == 1 {
 		return "", false
 	}
@@ -876,10 +896,10 @@ func unhex(s string) (string, bool) {
 	return string(b), true
 }
 
-var algoNames = map[int][]string{0: {"unknown", "default"}, 1: {"rsa"}, 2: {"dsa"}, 3: {"ecdsa"}, 4: {"ed25519"}}
+var zvgAlgoNames = map[int][]string{0: {"unknown", "default"}, 1: {"rsa"}, 2: {"dsa"}, 3: {"ecdsa"}, 4: {"ed25519"}}
 
-func algoText(r *mrand.Rand, a int, form string) string {
-	names, ok := algoNames[a]
+func zvgAlgoText(r *mrand.Rand, a int, form string) string {
+	names, ok := zvgAlgoNames[a]
 	if !ok || form == "num" {
 		return strconv.Itoa(a)
 	}
@@ -908,17 +928,17 @@ func algoText(r *mrand.Rand, a int, form string) string {
 }
 
 // concrete values of one run
-type gConc struct {
+type zvgGConc struct {
 	ln, ru, rh, ip, tid string
 	dirPath             string
 }
 
-func (g *gInst) fileFor(cls string) ([]byte, string) {
+func (g *zvgGInst) fileFor(cls string) ([]byte, string) {
 	switch cls {
 	case "U":
-		return ssh.MarshalAuthorizedKey(g.U.Pub), tagOf(g.U.Pub.Marshal())
+		return ssh.MarshalAuthorizedKey(g.U.Pub), zvgTagOf(g.U.Pub.Marshal())
 	case "O":
-		return ssh.MarshalAuthorizedKey(g.O.Pub), tagOf(g.O.Pub.Marshal())
+		return ssh.MarshalAuthorizedKey(g.O.Pub), zvgTagOf(g.O.Pub.Marshal())
 	case "bad":
 		switch g.rnd.Intn(4) {
 		case 0:
@@ -937,13 +957,13 @@ func (g *gInst) fileFor(cls string) ([]byte, string) {
 	return nil, "none"
 }
 
-func (g *gInst) runOne(ri int, run *gRun, pre []gID) (*gRec, []gID, error) {
+func (g *zvgGInst) runOne(ri int, run *zvgGRun, pre []zvgGID) (*zvgGRec, []zvgGID, error) {
 	r := g.rnd
 	// ---- concrete inputs (pairwise distinct) ----
-	cv := gConc{}
+	cv := zvgGConc{}
 	used := map[string]bool{}
 	pick := func(given string, gen func() string) string {
-		if s, ok := unhex(given); ok {
+		if s, ok := zvgUnhex(given); ok {
 			used[s] = true
 			return s
 		}
@@ -961,15 +981,15 @@ func (g *gInst) runOne(ri int, run *gRun, pre []gID) (*gRec, []gID, error) {
 			}
 		}
 	}
-	cv.ln = pick(run.Ln, func() string { return genText(r, true) })
+	cv.ln = pick(run.Ln, func() string { return zvgGenLogName(r) })
 	if run.Ru == "=ln" {
 		cv.ru = cv.ln // the client declares the login name itself (the common case in practice)
 	} else {
-		cv.ru = pick(run.Ru, func() string { return genText(r, true) })
+		cv.ru = pick(run.Ru, func() string { return zvgGenText(r, true) })
 	}
-	cv.rh = pick(run.Rh, func() string { return genText(r, false) })
-	cv.ip = pick(run.IP, func() string { return genIP(r) })
-	cv.tid = pick(run.Tid, func() string { return genText(r, false) })
+	cv.rh = pick(run.Rh, func() string { return zvgGenText(r, false) })
+	cv.ip = pick(run.IP, func() string { return zvgGenIP(r) })
+	cv.tid = pick(run.Tid, func() string { return zvgGenText(r, false) })
 	if strings.ContainsAny(cv.ln, "/\x00") || strings.ContainsAny(cv.ru, "/\x00") {
 		return nil, nil, fmt.Errorf("login / user names must be file names")
 	}
@@ -989,7 +1009,7 @@ func (g *gInst) runOne(ri int, run *gRun, pre []gID) (*gRec, []gID, error) {
 	if err := os.MkdirAll(cv.dirPath, 0o700); err != nil {
 		return nil, nil, err
 	}
-	dirRec := gDir{}
+	dirRec := zvgGDir{}
 	for _, f := range []struct {
 		name string
 		cls  string
@@ -1007,7 +1027,7 @@ func (g *gInst) runOne(ri int, run *gRun, pre []gID) (*gRec, []gID, error) {
 	// ---- configuration file, read by the real loader ----
 	kids := map[string]string{}
 	for _, id := range run.Ids {
-		kids[algoText(r, id.A, id.F)] = id.ID
+		kids[zvgAlgoText(r, id.A, id.F)] = id.ID
 	}
 	confObj := map[string]interface{}{"handlers": map[string]interface{}{HandlerName: map[string]interface{}{
 		"pub_key_dir": cv.dirPath, "key_identifiers": kids, "cert_validity_sec": run.Val}}}
@@ -1038,15 +1058,15 @@ func (g *gInst) runOne(ri int, run *gRun, pre []gID) (*gRec, []gID, error) {
 		}
 	}
 	// ---- forwarded agent connection ----
-	obs := &gObs{Auth: make([]gAuth, len(run.Hs)), Chal: []gChal{}, Gen: []gGen{}, Csr: []gCsr{}, Certs: []gCert{}, Fr: []gFrame{}, Hp: []gHP{}}
-	rc := &runCtx{obs: obs, owner: map[*proto.SSHCertificateSigningRequest]int{}}
+	obs := &zvgGObs{Auth: make([]zvgGAuth, len(run.Hs)), Chal: []zvgGChal{}, Gen: []zvgGGen{}, Csr: []zvgGCsr{}, Certs: []zvgGCert{}, Fr: []zvgGFrame{}, Hp: []zvgGHP{}}
+	rc := &zvgRunCtx{obs: obs, owner: map[*proto.SSHCertificateSigningRequest]int{}}
 	px := g.px
 	if px == nil || !px.alive() {
 		if px != nil {
 			px.close()
 		}
-		px = newGsProxy(g.kr)
-		px.begin(func(int, string, []byte) gsAction { return gsAction{kind: "pass", fault: "none"} }, nil)
+		px = zvgNewGsProxy(g.kr)
+		px.begin(func(int, string, []byte) zvgGsAction { return zvgGsAction{kind: "pass", fault: "none"} }, nil)
 		px.start()
 		g.px, g.regH = nil, nil
 		if g.c.Reuse {
@@ -1058,36 +1078,36 @@ func (g *gInst) runOne(ri int, run *gRun, pre []gID) (*gRec, []gID, error) {
 	}
 	heldU := false
 	for _, id := range pre {
-		if id.Tag == tagOf(g.U.Pub.Marshal()) && id.T == "key" {
+		if id.Tag == zvgTagOf(g.U.Pub.Marshal()) && id.T == "key" {
 			heldU = true
 		}
 	}
-	script := func(idx int, kind string, req []byte) gsAction {
+	script := func(idx int, kind string, req []byte) zvgGsAction {
 		if fk, ok := agF[idx]; ok {
 			switch fk {
 			case "fail":
-				return gsAction{kind: "reply", reply: []byte{5}, fault: "fail"}
+				return zvgGsAction{kind: "reply", reply: []byte{5}, fault: "fail"}
 			case "garbage":
-				return gsAction{kind: "reply", reply: garbageReply(r), fault: "garbage"}
+				return zvgGsAction{kind: "reply", reply: zvgGarbageReply(r), fault: "garbage"}
 			default:
-				return gsAction{kind: "close", fault: "close"}
+				return zvgGsAction{kind: "close", fault: "close"}
 			}
 		}
 		if kind != "sign" {
-			return gsAction{kind: "pass", fault: "none"}
+			return zvgGsAction{kind: "pass", fault: "none"}
 		}
-		var sr signReq
+		var sr zvgSignReq
 		if err := ssh.Unmarshal(req, &sr); err != nil {
-			return gsAction{kind: "pass", fault: "none"}
+			return zvgGsAction{kind: "pass", fault: "none"}
 		}
-		reqTag := tagOf(sr.KeyBlob)
-		held := (reqTag == tagOf(g.U.Pub.Marshal()) && heldU)
+		reqTag := zvgTagOf(sr.KeyBlob)
+		held := (reqTag == zvgTagOf(g.U.Pub.Marshal()) && heldU)
 		mk := func(s ssh.Signer, data []byte) []byte {
 			sig, err := s.Sign(rand.Reader, data)
 			if err != nil {
 				return []byte{5}
 			}
-			return ssh.Marshal(signResp{Sig: ssh.Marshal(sig)})
+			return ssh.Marshal(zvgSignResp{Sig: ssh.Marshal(sig)})
 		}
 		fmtOf := func() string {
 			if pk, err := ssh.ParsePublicKey(sr.KeyBlob); err == nil {
@@ -1097,12 +1117,12 @@ func (g *gInst) runOne(ri int, run *gRun, pre []gID) (*gRec, []gID, error) {
 		}
 		switch run.Ans {
 		case "honest":
-			return gsAction{kind: "pass", fault: "none"}
+			return zvgGsAction{kind: "pass", fault: "none"}
 		case "otherkey":
-			return gsAction{kind: "reply", reply: mk(g.O2.Signer, sr.Data), fault: "none"}
+			return zvgGsAction{kind: "reply", reply: mk(g.O2.Signer, sr.Data), fault: "none"}
 		case "otherdata":
 			if !held {
-				return gsAction{kind: "reply", reply: []byte{5}, fault: "none"}
+				return zvgGsAction{kind: "reply", reply: []byte{5}, fault: "none"}
 			}
 			od := append([]byte{}, sr.Data...)
 			switch r.Intn(3) {
@@ -1113,49 +1133,49 @@ func (g *gInst) runOne(ri int, run *gRun, pre []gID) (*gRec, []gID, error) {
 			default:
 				od = od[:len(od)-1]
 			}
-			return gsAction{kind: "reply", reply: mk(g.U.Signer, od), fault: "none", other: od}
+			return zvgGsAction{kind: "reply", reply: mk(g.U.Signer, od), fault: "none", other: od}
 		case "replay":
 			if old, ok := g.oldSig[reqTag]; ok {
-				return gsAction{kind: "reply", reply: old, fault: "none"}
+				return zvgGsAction{kind: "reply", reply: old, fault: "none"}
 			}
-			return gsAction{kind: "reply", reply: []byte{5}, fault: "none"}
+			return zvgGsAction{kind: "reply", reply: []byte{5}, fault: "none"}
 		case "garbage":
 			switch r.Intn(3) {
 			case 0:
-				return gsAction{kind: "reply", reply: garbageReply(r), fault: "none"}
+				return zvgGsAction{kind: "reply", reply: zvgGarbageReply(r), fault: "none"}
 			case 1:
 				b := make([]byte, 10+r.Intn(80))
 				r.Read(b)
-				return gsAction{kind: "reply", reply: ssh.Marshal(signResp{Sig: b}), fault: "none"}
+				return zvgGsAction{kind: "reply", reply: ssh.Marshal(zvgSignResp{Sig: b}), fault: "none"}
 			default:
 				b := make([]byte, 64)
 				r.Read(b)
-				return gsAction{kind: "reply", reply: ssh.Marshal(signResp{Sig: ssh.Marshal(&ssh.Signature{Format: fmtOf(), Blob: b})}), fault: "none"}
+				return zvgGsAction{kind: "reply", reply: ssh.Marshal(zvgSignResp{Sig: ssh.Marshal(&ssh.Signature{Format: fmtOf(), Blob: b})}), fault: "none"}
 			}
 		case "empty":
 			switch r.Intn(3) {
 			case 0:
-				return gsAction{kind: "reply", reply: ssh.Marshal(signResp{Sig: []byte{}}), fault: "none"}
+				return zvgGsAction{kind: "reply", reply: ssh.Marshal(zvgSignResp{Sig: []byte{}}), fault: "none"}
 			case 1:
-				return gsAction{kind: "reply", reply: ssh.Marshal(signResp{Sig: ssh.Marshal(&ssh.Signature{Format: fmtOf(), Blob: []byte{}})}), fault: "none"}
+				return zvgGsAction{kind: "reply", reply: ssh.Marshal(zvgSignResp{Sig: ssh.Marshal(&ssh.Signature{Format: fmtOf(), Blob: []byte{}})}), fault: "none"}
 			default:
-				return gsAction{kind: "reply", reply: ssh.Marshal(signResp{Sig: ssh.Marshal(&ssh.Signature{})}), fault: "none"}
+				return zvgGsAction{kind: "reply", reply: ssh.Marshal(zvgSignResp{Sig: ssh.Marshal(&ssh.Signature{})}), fault: "none"}
 			}
 		case "closed":
-			return gsAction{kind: "close", fault: "none"}
+			return zvgGsAction{kind: "close", fault: "none"}
 		default: // nokey, failure
-			return gsAction{kind: "reply", reply: []byte{5}, fault: "none"}
+			return zvgGsAction{kind: "reply", reply: []byte{5}, fault: "none"}
 		}
 	}
-	onFrame := func(idx int, kind string, req, reply []byte, act gsAction, fr *gFrame) {
+	onFrame := func(idx int, kind string, req, reply []byte, act zvgGsAction, fr *zvgGFrame) {
 		if kind != "sign" {
 			return
 		}
-		var sr signReq
+		var sr zvgSignReq
 		if err := ssh.Unmarshal(req, &sr); err != nil {
 			return
 		}
-		ch := gChal{Key: tagOf(sr.KeyBlob), Data: make([]int, len(sr.Data)), Hx: hex.EncodeToString(sr.Data), Sig: gSig{Key: "none", Data: "none"}, F: act.fault}
+		ch := zvgGChal{Key: zvgTagOf(sr.KeyBlob), Data: make([]int, len(sr.Data)), Hx: hex.EncodeToString(sr.Data), Sig: zvgGSig{Key: "none", Data: "none"}, F: act.fault}
 		for i, b := range sr.Data {
 			ch.Data[i] = int(b)
 		}
@@ -1164,7 +1184,7 @@ func (g *gInst) runOne(ri int, run *gRun, pre []gID) (*gRec, []gID, error) {
 		rc.mu.Unlock()
 		// which key does the answer verify under, and over which data?
 		if act.kind != "close" && len(reply) > 0 && reply[0] == 14 {
-			var resp signResp
+			var resp zvgSignResp
 			var sig ssh.Signature
 			if ssh.Unmarshal(reply, &resp) == nil && ssh.Unmarshal(resp.Sig, &sig) == nil {
 				cands := append([]ssh.PublicKey{}, g.known...)
@@ -1186,7 +1206,7 @@ func (g *gInst) runOne(ri int, run *gRun, pre []gID) (*gRec, []gID, error) {
 				for _, d := range datas {
 					for _, k := range cands {
 						if k.Verify(d.d, &sig) == nil {
-							ch.Sig = gSig{Key: tagOf(k.Marshal()), Data: d.n}
+							ch.Sig = zvgGSig{Key: zvgTagOf(k.Marshal()), Data: d.n}
 							break search
 						}
 					}
@@ -1220,13 +1240,13 @@ func (g *gInst) runOne(ri int, run *gRun, pre []gID) (*gRec, []gID, error) {
 				}
 			}
 		case "accept", "reject":
-			inner = &stubHandler{accept: hk == "accept", sgen: run.Sgen, ncsr: run.Ncsr, val: run.Val, ag: agent.NewClient(px.client)}
+			inner = &zvgStubHandler{accept: hk == "accept", sgen: run.Sgen, ncsr: run.Ncsr, val: run.Val, ag: agent.NewClient(px.client)}
 		default:
 			return nil, nil, fmt.Errorf("unknown handler kind %q", hk)
 		}
-		hs = append(hs, &recH{inner: inner, idx: i + 1, rc: rc, panicAt: hF[i+1]})
+		hs = append(hs, &zvgRecH{inner: inner, idx: i + 1, rc: rc, panicAt: hF[i+1]})
 	}
-	ca := &stubCA{ca: g.ca, rc: rc, ncert: run.Ncert, plain: run.PlainCA, flts: caF, serial: &g.serial, plainPK: g.O.Pub}
+	ca := &zvgStubCA{ca: g.ca, rc: rc, ncert: run.Ncert, plain: run.PlainCA, flts: caF, serial: &g.serial, plainPK: g.O.Pub}
 	param := &csr.ReqParam{
 		NamespacePolicy:  common.NamespacePolicy(run.Ns),
 		HandlerName:      "Regular",
@@ -1237,7 +1257,7 @@ func (g *gInst) runOne(ri int, run *gRun, pre []gID) (*gRec, []gID, error) {
 		TransID:          cv.tid,
 		SSHClientVersion: version.New(8, 1),
 		Attrs: &message.Attributes{Username: cv.ru, Hostname: cv.rh, SSHClientVersion: "8.1", HardKey: run.Hard,
-			CAPubKeyAlgo: x509Algo(run.Algo)},
+			CAPubKeyAlgo: zvgX509Algo(run.Algo)},
 	}
 	// ---- the run ----
 	type res struct {
@@ -1267,28 +1287,28 @@ func (g *gInst) runOne(ri int, run *gRun, pre []gID) (*gRec, []gID, error) {
 	px.mu.Lock()
 	obs.Fr = append(obs.Fr, px.frames...)
 	px.mu.Unlock()
-	obs.Err = errKind(out.err)
+	obs.Err = zvgErrKind(out.err)
 	obs.Pan = out.pan
 	post, err := g.observe()
 	if err != nil {
 		return nil, nil, err
 	}
 	sc := *run
-	sc.Ln, sc.Ru, sc.Rh, sc.IP, sc.Tid = hx(cv.ln), hx(cv.ru), hx(cv.rh), hx(cv.ip), hx(cv.tid)
+	sc.Ln, sc.Ru, sc.Rh, sc.IP, sc.Tid = zvgHx(cv.ln), zvgHx(cv.ru), zvgHx(cv.rh), zvgHx(cv.ip), zvgHx(cv.tid)
 	sc.Dir = dirRec
 	sc.Flts = nil
 	if sc.Ids == nil {
-		sc.Ids = []gIdent{}
+		sc.Ids = []zvgGIdent{}
 	}
 	if sc.Hs == nil {
 		sc.Hs = []string{}
 	}
-	rec := &gRec{Ev: "step", Tid: g.c.ID, I: ri + 1, Pre: &gAg{Ag: pre}, E: &gEv{Op: "run", Sc: &sc, R: obs}, Post: &gAg{Ag: post}}
+	rec := &zvgGRec{Ev: "step", Tid: g.c.ID, I: ri + 1, Pre: &zvgGAg{Ag: pre}, E: &zvgGEv{Op: "run", Sc: &sc, R: obs}, Post: &zvgGAg{Ag: post}}
 	return rec, post, nil
 }
 
-func runCase(c *gCase, tmpRoot string) ([]interface{}, error) {
-	g := &gInst{c: c, rnd: verifh.NewRand("gensign/"+c.ID, 0), kr: agent.NewKeyring(), cls: map[string]string{}, oldSig: map[string][]byte{}}
+func zvgRunCase(c *zvgGCase, tmpRoot string) ([]interface{}, error) {
+	g := &zvgGInst{c: c, rnd: verifh.NewRand("gensign/"+c.ID, 0), kr: agent.NewKeyring(), cls: map[string]string{}, oldSig: map[string][]byte{}}
 	g.ukind = c.UKind
 	if g.ukind == "" {
 		g.ukind = verifh.KeyKinds[g.rnd.Intn(3)]
@@ -1314,7 +1334,7 @@ func runCase(c *gCase, tmpRoot string) ([]interface{}, error) {
 	if err != nil {
 		return nil, err
 	}
-	out := []interface{}{&gRec{Ev: "reset", Tid: c.ID, Post: &gAg{Ag: pre}, Info: map[string]interface{}{"case": c, "seed": verifh.Seed()}}}
+	out := []interface{}{&zvgGRec{Ev: "reset", Tid: c.ID, Post: &zvgGAg{Ag: pre}, Info: map[string]interface{}{"case": c, "seed": verifh.Seed()}}}
 	for ri := range c.Runs {
 		rec, post, err := g.runOne(ri, &c.Runs[ri], pre)
 		if err != nil {
@@ -1332,9 +1352,9 @@ func runCase(c *gCase, tmpRoot string) ([]interface{}, error) {
 // ---------------------------------------------------------------------------------------------
 // direction B: random cases
 
-func randomCase(n int, maxRuns int) gCase {
+func zvgRandomCase(n int, maxRuns int) zvgGCase {
 	r := verifh.NewRand("gensign/random", int64(n))
-	c := gCase{ID: fmt.Sprintf("r%d", n), UKind: verifh.KeyKinds[r.Intn(len(verifh.KeyKinds))]}
+	c := zvgGCase{ID: fmt.Sprintf("r%d", n), UKind: verifh.KeyKinds[r.Intn(len(verifh.KeyKinds))]}
 	if r.Intn(10) == 0 {
 		c.UKind = "rsa2048"
 	}
@@ -1365,7 +1385,7 @@ func randomCase(n int, maxRuns int) gCase {
 		return "bad"
 	}
 	for i := 0; i < nr; i++ {
-		run := gRun{Ns: "NONS", Ans: "honest", Sgen: "ok", Ncsr: 1 + r.Intn(2), Ncert: r.Intn(4), Algo: r.Intn(5), Fok: true}
+		run := zvgGRun{Ns: "NONS", Ans: "honest", Sgen: "ok", Ncsr: 1 + r.Intn(2), Ncert: r.Intn(4), Algo: r.Intn(5), Fok: true}
 		// handlers
 		nh := r.Intn(4)
 		if r.Intn(3) > 0 {
@@ -1390,9 +1410,9 @@ func randomCase(n int, maxRuns int) gCase {
 		}
 		run.Hard = r.Intn(20) == 0
 		if r.Intn(5) > 0 {
-			run.Dir = gDir{Lp: fcls([]int{2, 8, 1, 1}), Lb: fcls([]int{6, 2, 1, 1}), Rp: fcls([]int{8, 2, 1, 0}), Rb: fcls([]int{9, 1, 1, 0})}
+			run.Dir = zvgGDir{Lp: fcls([]int{2, 8, 1, 1}), Lb: fcls([]int{6, 2, 1, 1}), Rp: fcls([]int{8, 2, 1, 0}), Rb: fcls([]int{9, 1, 1, 0})}
 		} else {
-			run.Dir = gDir{Lp: fcls([]int{3, 2, 2, 2}), Lb: fcls([]int{3, 3, 2, 2}), Rp: fcls([]int{3, 4, 2, 0}), Rb: fcls([]int{4, 3, 2, 0})}
+			run.Dir = zvgGDir{Lp: fcls([]int{3, 2, 2, 2}), Lb: fcls([]int{3, 3, 2, 2}), Rp: fcls([]int{3, 4, 2, 0}), Rb: fcls([]int{4, 3, 2, 0})}
 		}
 		if r.Intn(5) == 0 {
 			run.Ans = []string{"nokey", "otherkey", "otherdata", "replay", "replay", "garbage", "empty", "failure", "closed"}[r.Intn(9)]
@@ -1426,11 +1446,11 @@ func randomCase(n int, maxRuns int) gCase {
 				p = 5
 			}
 			if r.Intn(6) < p {
-				run.Ids = append(run.Ids, gIdent{A: a, F: forms[r.Intn(4)], ID: fmt.Sprintf("slot-%d-%d", a, r.Intn(1000))})
+				run.Ids = append(run.Ids, zvgGIdent{A: a, F: forms[r.Intn(4)], ID: fmt.Sprintf("slot-%d-%d", a, r.Intn(1000))})
 			}
 		}
 		if run.Ids == nil {
-			run.Ids = []gIdent{}
+			run.Ids = []zvgGIdent{}
 		}
 		if r.Intn(7) == 0 {
 			run.Sgen = []string{"CSR", "Conf", "Params", "empty"}[r.Intn(4)]
@@ -1445,24 +1465,24 @@ func randomCase(n int, maxRuns int) gCase {
 		for j := 0; j < nf; j++ {
 			switch r.Intn(5) {
 			case 0:
-				run.Flts = append(run.Flts, gFlt{Pt: "ca", Idx: 1 + r.Intn(2), Kind: []string{"err", "panic"}[r.Intn(2)]})
+				run.Flts = append(run.Flts, zvgGFlt{Pt: "ca", Idx: 1 + r.Intn(2), Kind: []string{"err", "panic"}[r.Intn(2)]})
 			case 1:
 				if nh > 0 {
-					run.Flts = append(run.Flts, gFlt{Pt: "h", Idx: 1 + r.Intn(nh), Kind: []string{"auth", "name", "gen"}[r.Intn(3)]})
+					run.Flts = append(run.Flts, zvgGFlt{Pt: "h", Idx: 1 + r.Intn(nh), Kind: []string{"auth", "name", "gen"}[r.Intn(3)]})
 				}
 			default:
-				run.Flts = append(run.Flts, gFlt{Pt: "agent", Idx: 1 + r.Intn(9), Kind: []string{"fail", "garbage", "close"}[r.Intn(3)]})
+				run.Flts = append(run.Flts, zvgGFlt{Pt: "agent", Idx: 1 + r.Intn(9), Kind: []string{"fail", "garbage", "close"}[r.Intn(3)]})
 			}
 		}
 		if run.Flts == nil {
-			run.Flts = []gFlt{}
+			run.Flts = []zvgGFlt{}
 		}
 		c.Runs = append(c.Runs, run)
 	}
 	return c
 }
 
-func x509Algo(a int) x509.PublicKeyAlgorithm { return x509.PublicKeyAlgorithm(a) }
+func zvgX509Algo(a int) x509.PublicKeyAlgorithm { return x509.PublicKeyAlgorithm(a) }
 
 // ---------------------------------------------------------------------------------------------
 
@@ -1472,7 +1492,7 @@ func TestVerifGensign(t *testing.T) {
 		t.Skip("VERIF_PLAN / VERIF_OUT not set")
 	}
 	zerolog.SetGlobalLevel(zerolog.Disabled)
-	var plan gPlan
+	var plan zvgGPlan
 	b, err := os.ReadFile(planPath)
 	if err != nil {
 		t.Fatal(err)
@@ -1488,11 +1508,11 @@ func TestVerifGensign(t *testing.T) {
 	nA := len(cases)
 	if plan.Random != nil {
 		for i := 0; i < plan.Random.N; i++ {
-			cases = append(cases, randomCase(i, plan.Random.MaxRuns))
+			cases = append(cases, zvgRandomCase(i, plan.Random.MaxRuns))
 		}
 	}
 	if len(plan.Only) > 0 {
-		var sel []gCase
+		var sel []zvgGCase
 		for _, c := range cases {
 			for _, id := range plan.Only {
 				if c.ID == id {
@@ -1549,14 +1569,14 @@ func TestVerifGensign(t *testing.T) {
 					return
 				}
 				mark("start", i)
-				recs, err := runCase(&cases[i], tmpRoot)
+				recs, err := zvgRunCase(&cases[i], tmpRoot)
 				mark("done", i)
 				mu.Lock()
 				if err != nil {
 					errs = append(errs, err.Error())
 				} else {
 					for _, rr := range recs[1:] {
-						o := rr.(*gRec).E.R
+						o := rr.(*zvgGRec).E.R
 						runs++
 						kinds[o.Err]++
 						if o.Pan {
